@@ -1,6 +1,7 @@
 mod drv_bool;
 mod drv_circuit;
 mod drv_hashtbl;
+mod drv_names;
 mod drv_num;
 mod ext;
 mod kinds;
@@ -40,6 +41,12 @@ fn main() {
         "tables" => by_kind!(kind, tables, &args),
         "hist" => by_kind!(kind, hist, &args),
         "reorder" => by_kind!(kind, reorder, &args),
+        "names" => match kind.as_str() {
+            "bdd" => drv_names::run::<BDDFunction>(&args),
+            "bcdd" => drv_names::run::<BCDDFunction>(&args),
+            "zbdd" => drv_names::run::<ZBDDFunction>(&args),
+            k => panic!("harness: unknown kind {k}"),
+        },
         d if d.starts_with("hashtbl") => drv_hashtbl::run(d, &args),
         d if d.starts_with("circuit") || d.starts_with("parse") => drv_circuit::run(d, &args),
         d if d.starts_with("num") || d.starts_with("natural") => drv_num::run(d, &args),
